@@ -139,6 +139,9 @@ pub struct SchedCase {
     pub ops: u32,
     pub variant: u32,
     pub plan: DelayPlan,
+    /// leak-checking legs: do not drive the executor-drop race (known finding: it leaks a future by construction)
+    #[serde(default)]
+    pub no_drop_race: bool,
 }
 
 pub fn draw_plan(rng: &mut Rng, sites: &[Site], miri: bool) -> DelayPlan {
